@@ -1124,17 +1124,20 @@ impl TypeSpace {
 
         // See if the value bounds fit within a known type.
         let maybe_type = match (min, max) {
-            (None, Some(max)) => formats.iter().rev().find_map(|(_, ty, _nz_ty, _, imax)| {
-                if (imax - max).abs() <= f64::EPSILON {
+            // With only one bound, the other is that of the default type
+            // (i64) so only types at least that wide in the open direction
+            // can represent every permitted value.
+            (None, Some(max)) => formats.iter().rev().find_map(|(_, ty, _nz_ty, imin, imax)| {
+                if *imin <= i64::MIN as f64 && (imax - max).abs() <= f64::EPSILON {
                     Some(ty.to_string())
                 } else {
                     None
                 }
             }),
-            (Some(min), None) => formats.iter().rev().find_map(|(_, ty, nz_ty, imin, _)| {
+            (Some(min), None) => formats.iter().rev().find_map(|(_, ty, nz_ty, imin, imax)| {
                 if min == 1. {
                     Some(nz_ty.to_string())
-                } else if (imin - min).abs() <= f64::EPSILON {
+                } else if *imax >= i64::MAX as f64 && (imin - min).abs() <= f64::EPSILON {
                     Some(ty.to_string())
                 } else {
                     None
